@@ -20,11 +20,42 @@ def field_equalities(layout, rec, lhs, rhs):
     return out
 
 
+def hidden_randomness(goal, out):
+    """static no_hidden_randomness:<src>:<name,name,...>  -- the named functions (all overloads) obtain randomness only
+    through their generator parameter: no std::random_device, rand/srand/time, static local or namespace-scope variable."""
+    _, src, names = goal['key'].split(':')
+    u = cast.Unit(src)
+    tr = IR.Translator(u)
+    for m, d in u.funcs.items():
+        if d.get('name') not in names.split(','): continue
+        f = tr.func(m)
+        bad = []
+        def we(e):
+            if isinstance(e, IR.E):
+                if e.k == 'call' and isinstance(e.fn, str) and ('random_device' in e.fn or e.fn in ('ext:rand', 'ext:srand', 'ext:time', 'ext:random')):
+                    bad.append('calls %s' % e.fn)
+                if e.k == 'var' and getattr(e, 'glob', False): bad.append('reads/writes namespace-scope variable %s' % e.name)
+                if e.k == 'decl' and getattr(e, 'static', False): bad.append('static local %s' % e.name)
+                if e.k == 'decl' and e.t in ('prng',) : bad.append('constructs its own generator %s' % e.name)
+                for v in e.__dict__.values():
+                    if isinstance(v, IR.E): we(v)
+                    elif isinstance(v, list):
+                        for a in v: we(a)
+        for s_ in f.body: we(s_)
+        has_gen = any(pt == 'prng' for pn, pt, br in f.params)
+        if not has_gen: bad.append('has no generator parameter')
+        out['obligations'].append({'id': 'static:no_hidden_randomness:%s' % f.qual + m[-6:], 'kind': 'static-fact',
+                                   'text': '%s takes randomness only from its generator parameter%s' % (f.qual, '' if not bad else ' -- VIOLATED: ' + '; '.join(sorted(set(bad)))),
+                                   'verdict': 'proved' if not bad else 'failed', 'backend': 'ast-scan', 'seconds': 0.0, 'model': None, 'log': []})
+    return out
+
+
 def run_goal(goal):
     """static copy_semantics:<Rec>  -- copies of the record are memberwise: either the copy operations are implicit
     (memberwise by the language) or the user-provided ones are proved memberwise from their bodies."""
     out = {'obligations': [], 'error': None, 'static_failures': [], 'bounded': [], 'vacuous': [], 'info': {'function': goal['key'], 'modes': None, 'rules': None}}
     kind, _, recs = goal['key'].partition(':')
+    if kind == 'no_hidden_randomness': return hidden_randomness(goal, out)
     if kind != 'copy_semantics': raise RuntimeError('unknown static goal %s' % kind)
     units = cast.all_units()
     db = SP.load_all()
